@@ -43,6 +43,9 @@ func c01Check(c *Case) []Violation {
 			stat("after_rejected_predecessor_was_accepted")
 		}
 	}
+	if c.Kind == "service-history" {
+		return c01ServiceHistory(c, req)
+	}
 	out := Decide(J(c.Req), scriptFromCase(c))
 	if !out.Accepted {
 		if c.Kind == "bias-sequence" {
@@ -67,6 +70,41 @@ func c01Check(c *Case) []Violation {
 		cur.Outcome(len(resp.Result) >= 2 && links > 0, out.Body)
 	}
 	return wellFormed(c, resp, expectedIDs(req))
+}
+
+// c01ServiceHistory: the request is POSTed to the service's own handler after another accepted request (observation point
+// "POST /api/decide response body"): the answer must be the complete, well-formed ranking of THIS request.
+func c01ServiceHistory(c *Case, req M) []Violation {
+	if pre, ok := c.Params["after_accepted"]; ok {
+		if r := post(J(pre)); r.Code != 200 {
+			stat("service_history_predecessor_rejected")
+		}
+	}
+	r := post(J(req))
+	if r.Code != 200 {
+		return []Violation{viol(c, "C01/rejected", "valid request answered %d by the service after another request: %.200s", r.Code, r.Body)}
+	}
+	resp, err := ParseResponse(r.Body)
+	if err != nil {
+		return []Violation{viol(c, "C01/unparsable", "%v", err)}
+	}
+	return wellFormed(c, resp, expectedIDs(req))
+}
+
+// c01ServiceCorpus: every method on the subset root; the two heuristics that know a current choice without one, with one
+// outside and with one inside choseToMake.
+func c01ServiceCorpus() []M {
+	var out []M
+	for _, m := range allMethods {
+		out = append(out, rootRequest(m, true, false))
+		if m == "majorityHeuristic" || m == "satisfactionHeuristic" {
+			for _, cc := range []string{"b", "a"} {
+				out = append(out, withMP(rootRequest(m, true, false), M{"currentChoice": cc}))
+			}
+			out = append(out, withMP(rootRequest(m, false, false), M{"currentChoice": "c", "randomAlternativesOrdering": true, "randomSeed": 4}))
+		}
+	}
+	return out
 }
 
 var liteEnum = false
@@ -149,6 +187,16 @@ func c01Run(s *Shard) {
 					run(&Case{Kind: "no-criterion-left", Req: withBiases(root, chain)})
 				}
 			}
+		}
+	}
+	// every ordered pair of the service corpus, POSTed one after the other to the service's handler
+	sc := c01ServiceCorpus()
+	for _, p := range sc {
+		for _, q := range sc {
+			if !s.Take() {
+				continue
+			}
+			run(&Case{Kind: "service-history", Req: q, Params: M{"after_accepted": p}})
 		}
 	}
 	majEnumerate(s, "C01", run)
